@@ -35,12 +35,21 @@ AttrScaled(c) ==
             val == SumSet([t \in TS |-> c.A * d(ch, t) - SumSet([k \in 1..c.A |-> d(k, t)], 1..c.A)], TS)
         IN IF c.hyp \/ c.x[n][s + q] = ch - 1 THEN val ELSE 0]]]
 
-\* c = [x, A, args, start, end, bs, out, T, tlo, thi, hyp, raw]
+\* models with a second trailing output dimension U (c.U = 2): entry [t][uu] = F(x, a, (t-1) + 10*(uu-1)); the attribution selects
+\* targets on the FIRST trailing dimension and averages over everything after it, scaled by A * |targets| * U
+AttrScaledU(c) ==
+    LET s == c.start e == EndOf(c.x[1], c.end) TS == Targets(c)
+        Fv(xx, n, t, uu) == F(xx, ArgOf(c, n), (t - 1) + 10 * (uu - 1)) IN
+    [n \in 1..Len(c.x) |-> [ch \in 1..c.A |-> [q \in 1..(e - s) |->
+        LET d(k, t, uu) == Fv(Mut(c.x[n], k - 1, s + q), n, t, uu) - Fv(c.x[n], n, t, uu)
+            val == SumSet([t \in TS |-> SumSet([uu \in 1..c.U |-> c.A * d(ch, t, uu) - SumSet([k \in 1..c.A |-> d(k, t, uu)], 1..c.A)], 1..c.U)], TS)
+        IN IF c.hyp \/ c.x[n][s + q] = ch - 1 THEN val ELSE 0]]]
+\* c = [x, A, args, start, end, bs, out, T, U, tlo, thi, hyp, raw]
 ISMExpected(c) ==
     IF ~WindowOK(c.x[1], c.start, c.end) THEN [zone |-> "either", y0 |-> <<>>, yhat |-> <<>>, y0b |-> <<>>, yhatb |-> <<>>, attr |-> <<>>]
     ELSE IF c.raw THEN
         [zone |-> "accept", y0 |-> Y0(c, c.T, 0), yhat |-> YHat(c, c.T, 0),
          y0b |-> IF c.out = "tuple" THEN Y0(c, 4, 7) ELSE <<>>, yhatb |-> IF c.out = "tuple" THEN YHat(c, 4, 7) ELSE <<>>,
          attr |-> <<>>]
-    ELSE [zone |-> "accept", y0 |-> <<>>, yhat |-> <<>>, y0b |-> <<>>, yhatb |-> <<>>, attr |-> AttrScaled(c)]
+    ELSE [zone |-> "accept", y0 |-> <<>>, yhat |-> <<>>, y0b |-> <<>>, yhatb |-> <<>>, attr |-> IF c.U = 1 THEN AttrScaled(c) ELSE AttrScaledU(c)]
 =============================================================================
